@@ -58,6 +58,11 @@ def success_paths(b, flag):
                         ok = False
                         break
             if ok:
+                # a path that returns an error (built in place, or the residual of a `?` written as a match) is not a success path
+                r = mir.PathSummary(b, path).ret()
+                if (r[0] == "agg" and r[1].get("variant") == "Err") or (r[0] == "call" and (r[1].callee.get("name") == "from_residual" or
+                                                                                      re.search(r"(^|::)sval::(result::)?error$", r[1].callee.get("path") or ""))):
+                    continue
                 out.append(path)
     return out
 
